@@ -16,6 +16,7 @@ def register(db):
     # one attempt to take a message of the consumer's category and the given priority (verified in c01_redis)
     db.contract(fn=C + "__get_message", assumed=True, is_async=True,
                 returns="Optional[tuple[RoutingKey, str, Parameters]]",
+                effects=[("got", "result", "result is not None")],
                 modifies=["ghost.taken"], ensures={"taken": "(result is not None) == (ghost.taken == old(ghost.taken) + 1)",
                                                    "count": "ghost.taken == old(ghost.taken) or ghost.taken == old(ghost.taken) + 1",
                                                    "decoded_ttl_representable": "implies(result is not None, result[2].ttl is None"
@@ -25,9 +26,12 @@ def register(db):
                 effects=[("trace", "('nack', key)")], note="verified in c01_redis")
     db.contract(
         fn=C + "consume_or_none", serves=["C12"],
-        ghost_init={"trace": "events", "taken": "int"},
+        ghost_init={"trace": "events", "taken": "int", "got": "events"},
         returns="Optional[tuple[RoutingKey, str, Parameters]]",
         ensures={
+            # a message still within its time-to-live (or without one) is never dead-lettered
+            "live_never_dead_lettered": "forall_in(e, trace, exists_in(g, got, g[0] is e[1] and g[2].ttl is not None"
+                                        " and last_now() > g[2].timestamp + g[2].ttl))",
             # whatever is returned is delivered: it must not be expired when it is a NORMAL delivery
             "delivered_is_live": "implies(result is not None and self.category == MessageCategory.NORMAL,"
                                  " not (result[2].ttl is not None and last_now() > result[2].timestamp + result[2].ttl))",
